@@ -295,11 +295,23 @@ class ModuleFinder:
             filepath (Path): A submodule filepath.
         """
         if isinstance(path, list):
-            # We never enter this condition again in recursive calls,
-            # so we just have to set `seen` once regardless of its value.
-            seen = set()
-            for path_elem in path:
-                yield from self.iter_submodules(path_elem, seen)
+            # Portions of a namespace package: replicate the import system, which walks them in order.
+            # The first portion providing a name as a module file or a regular package (`__init__`) owns it:
+            # the same name in the other portions, and everything they hold under it, is not importable.
+            # Names that are bare directories everywhere are namespace packages again: their portions are merged.
+            portions = [list(self.iter_submodules(path_elem)) for path_elem in path]
+            owners: dict[tuple[str, ...], int] = {}
+            for index, submodules in enumerate(portions):
+                for name_parts, filepath in submodules:
+                    if filepath.suffix != ".pyi":  # stubs never take precedence over actual modules
+                        owners.setdefault(tuple(name_parts), index)
+            for index, submodules in enumerate(portions):
+                for name_parts, filepath in submodules:
+                    upto = len(name_parts) if filepath.suffix == ".pyi" else len(name_parts) + 1
+                    if all(owners.get(tuple(name_parts[:length]), index) == index for length in range(1, upto)):
+                        yield name_parts, filepath
+                    else:
+                        logger.debug("Skip %s, another module took precedence", filepath)
             return
 
         if path.stem == "__init__":
